@@ -211,15 +211,21 @@ Section Thr.
     - (* PM4 *) assert (Hu : holds_mu thu = true) by holder_of Pu.
       destruct (G3 Hu) as (Cu & Aw & _ & KL). destruct TFu as (Yc & Kf). rewrite Cu.
       split; [exact Yc|]. unfold krot_f in *. destruct k; auto. rewrite Aw. destruct Kf; auto.
-    - (* PRel *) unfold krot_f in *. destruct k; auto.
-      assert (Hu : holds_mu thu = true) by holder_of Pu.
-      destruct (G3 Hu) as (Cu & Aw & _ & KL). rewrite Aw. destruct TFu; auto.
-    - (* PLast *) unfold krot_f in *. destruct k; auto.
-      assert (Hu : holds_mu thu = true) by holder_of Pu.
-      destruct (G3 Hu) as (Cu & Aw & _ & KL). rewrite Aw. destruct TFu; auto.
-    - (* PRun *) unfold krot_f in *. destruct k; auto.
-      assert (Hu : holds_mu thu = true) by holder_of Pu.
-      destruct (G3 Hu) as (Cu & Aw & _ & KL). rewrite Aw. destruct TFu; auto.
+    - (* PRel *) destruct TFu as [TFk TFr]. unfold krot_f in *. destruct k; try (split; [exact Logic.I | intros Q; discriminate Q]).
+      + assert (Hu : holds_mu thu = true) by holder_of Pu.
+        destruct (G3 Hu) as (Cu & Aw & _ & KL). rewrite Aw. split; [destruct TFk; auto | intros Q; discriminate Q].
+      + split; [exact Logic.I|]. intros _ L. assert (Hu : holds_mu thu = true) by (unfold holds_mu; now rewrite Pu).
+        destruct (G3 Hu) as (Cu & Aw & _). rewrite Aw. auto.
+    - (* PLast *) destruct TFu as [TFk TFr]. unfold krot_f in *. destruct k; try (split; [exact Logic.I | intros Q; discriminate Q]).
+      + assert (Hu : holds_mu thu = true) by holder_of Pu.
+        destruct (G3 Hu) as (Cu & Aw & _ & KL). rewrite Aw. split; [destruct TFk; auto | intros Q; discriminate Q].
+      + split; [exact Logic.I|]. intros _ L. assert (Hu : holds_mu thu = true) by (unfold holds_mu; now rewrite Pu).
+        destruct (G3 Hu) as (Cu & Aw & _). rewrite Aw. auto.
+    - (* PRun *) destruct TFu as [TFk TFr]. unfold krot_f in *. destruct k; try (split; [exact Logic.I | intros Q; discriminate Q]).
+      + assert (Hu : holds_mu thu = true) by holder_of Pu.
+        destruct (G3 Hu) as (Cu & Aw & _ & KL). rewrite Aw. split; [destruct TFk; auto | intros Q; discriminate Q].
+      + split; [exact Logic.I|]. intros _ L. assert (Hu : holds_mu thu = true) by (unfold holds_mu; now rewrite Pu).
+        destruct (G3 Hu) as (Cu & Aw & _). rewrite Aw. auto.
     - (* PC5 *) assert (Hu : holds_mu thu = true) by holder_of Pu. destruct (G3 Hu) as (Cu & _). congruence.
     - (* PC6 *) assert (Hu : holds_mu thu = true) by holder_of Pu. destruct (G3 Hu) as (Cu & _). congruence.
     - (* PCSwapped *) assert (Hu : holds_mu thu = true) by holder_of Pu. destruct (G3 Hu) as (Cu & _).
